@@ -13,6 +13,10 @@ CLAIMED = {
          'Trusted: model catalogue for core::num; EvaluationError constructors as opaque logged constructors. Outside: sets, `in`, records, like, parser/EST equivalence, extension calls.', '4 C02'),
  'C07': ('scalar kernels behind datetime/duration: offset, durationSince, toDate, toTime, toMilliseconds..toDays over all i64 (Int-mode, quotient lemma for / and %)',
          'Trusted: model catalogue (checked_*, rem_euclid, Option plumbing). Outside: constructor string parsing (regex, chrono), ip, decimal parsing.', '4 C07'),
+ 'C14': ('TPE response: classification of residual policies into the eight bucket sets and the residual map (one loop step from an arbitrary state, Residual::is_true/is_false/is_error executed from MIR), completion-quantified decision table, reason(), ResidualPolicy -> Policy conversion, policy_set() presents the residuals',
+         'Trusted: environment stubs for iterator/HashMap/HashSet/PolicySet::add and uninterpreted Policy getters. Outside: tpe::Evaluator simplification rules, can_error_assuming_well_formed, consistency checks, query_* APIs.', '4 C14'),
+ 'C20': ('panic-freedom of the cedar-policy-core kernels encoded for C01/C02/C07/C13/C14: every MIR assert / unwrap / expect / unreachable! / explicit panic on a feasible path is a failed obligation',
+         'Narrow slice of C20: only the kernels listed in the evidence; parsers, error rendering, JSON/protobuf/FFI entry points and nesting limits are outside. Panics inside stubbed callees are invisible.', '4 C20'),
  'C13': ('PartialResponse algebra: decision() agrees with every completion and is None only when completions disagree; must <= determining <= may; definitely_errored / definitely_satisfied; the policy set reauthorize evaluates',
          'Trusted: bucket-granular completion model; HashMap/iterator adaptors as logged terms with real closure bodies. Outside: residual-building arms of the evaluator, partial entity stores.', '4 C13'),
 }
@@ -26,13 +30,11 @@ NA = {
  'C10': 'serde_json in both directions',
  'C11': 'machinery not built yet (type-directed conformance per node planned, see DESIGN.md section 4)',
  'C12': 'logos + regex + pretty + the core parser',
- 'C14': 'machinery not built yet (TPE response table and views planned, see DESIGN.md section 4)',
  'C15': 'typechecker + TPE evaluator + loader loop with iterator/closure bodies; its only encodable piece (tpe::Response decision table) belongs to C14',
  'C16': 'machinery not built yet (level calculus per node planned, see DESIGN.md section 4)',
  'C17': 'feature-gated analysis over typed ASTs plus evaluation over sliced stores',
  'C18': 'machinery not built yet (BitVec vs SMT-LIB semantics planned, see DESIGN.md section 4)',
  'C19': 'serde_json, the parser, thread-local caches, process exit codes',
- 'C20': 'machinery not built yet (panic-freedom of the encoded kernels planned, see DESIGN.md section 4)',
 }
 checks = []
 for pid, (what, note, ref) in sorted(CLAIMED.items()):
